@@ -40,7 +40,7 @@ def configs(tier):
         for impl in F.IMPLS:
             w = 10 if impl == 'py' else 1
             for kind in ('Bucket', 'Set'):
-                for var in F.variants(fam):
+                for var in F.variants(fam) + (['unhash'] if fam[0] == 'O' else []):
                     out.append((fam, kind, impl, None, 5 if fam in deep else 4, var, 'shape', w))
                 out.append((fam, kind, impl, None, 3, 'centred', 'value', w))
             for kind in F.TREE_KINDS:
@@ -53,6 +53,7 @@ def configs(tier):
                         out.append((fam, kind, impl, (3, 2), 5, 'centred', 'shape', 3 * w))
                         if fam[0] == 'O':
                             out.append((fam, kind, impl, (2, 2), 5, 'none', 'shape', 5 * w))
+                            out.append((fam, kind, impl, (2, 2), 4, 'unhash', 'shape', 2 * w))
                     else:
                         out.append((fam, kind, impl, (2, 2), 7 if impl == 'c' else 6,
                                     'centred', 'shape', 400 * w))
@@ -61,9 +62,12 @@ def configs(tier):
                             out.append((fam, kind, impl, sz, 6, 'centred', 'shape', 10 * w))
                         if fam[0] == 'O':
                             out.append((fam, kind, impl, (2, 2), 6, 'none', 'shape', 40 * w))
+                            out.append((fam, kind, impl, (2, 2), 5, 'unhash', 'shape', 10 * w))
                 else:
                     out.append((fam, kind, impl, (2, 2), 4, 'centred', 'shape', w))
                     out.append((fam, kind, impl, (2, 2), 4, 'extreme', 'shape', w))
+                    if fam[0] == 'O':
+                        out.append((fam, kind, impl, (2, 2), 3, 'unhash', 'shape', w))
                 if kind == 'BTree' or True:
                     out.append((fam, kind, impl, (2, 2), 3, 'centred', 'value', w))
     return out
@@ -169,6 +173,12 @@ def alphabet(ctx, keys, grid, vals, mode, n):
                     ops.append(('update', form, sub))
                     for ip in ('ior', 'iand', 'isub', 'ixor'):
                         ops.append((ip, form, sub))
+                if sub:
+                    # a plain iterable is neither sorted nor duplicate-free
+                    dup = sub[::-1] + sub[:1]
+                    ops.append(('update', 'list', dup))
+                    for ip in ('ior', 'iand', 'isub', 'ixor'):
+                        ops.append((ip, 'list', dup))
             full = tuple(reversed(keys))
             for form in ('tuple', 'gen', 'pyset', 'set' if ctx.kind == 'TreeSet' else 'treeset'):
                 ops.append(('update', form, full))
@@ -182,6 +192,9 @@ def alphabet(ctx, keys, grid, vals, mode, n):
                 ops.append((ip, 'list', full[::2]))
                 ops.append((ip, 'same', full[1::2]))
                 ops.append((ip, 'list', ()))
+                ops.append((ip, 'list', tuple(reversed(keys))))
+                ops.append((ip, 'list', (keys[0], keys[0])))
+                ops.append((ip, 'list', (keys[-1], keys[1], keys[-1])))
     return ops
 
 
